@@ -424,13 +424,33 @@ func init() {
 		},
 		"sort.Strings": func(i *interpreter, fr *frame, a []value) value {
 			xs := a[0].([]value)
-			ss := make([]string, len(xs))
-			for k := range xs {
-				ss[k] = i.concString(xs[k])
+			all := true
+			for _, x := range xs {
+				if !deepConcrete(x) {
+					all = false
+				}
 			}
-			sort.Strings(ss)
-			for k := range xs {
-				i.writeCell(&xs[k], ss[k])
+			if all {
+				ss := make([]string, len(xs))
+				for k := range xs {
+					ss[k] = i.concString(xs[k])
+				}
+				sort.Strings(ss)
+				for k := range xs {
+					i.writeCell(&xs[k], ss[k])
+				}
+				return nil
+			}
+			// insertion sort, branching on the symbolic comparisons
+			for k := 1; k < len(xs); k++ {
+				for j := k; j > 0; j-- {
+					if !i.branch(i.strLtTerm(xs[j], xs[j-1])) {
+						break
+					}
+					t := xs[j]
+					i.writeCell(&xs[j], xs[j-1])
+					i.writeCell(&xs[j-1], t)
+				}
 			}
 			return nil
 		},
